@@ -7,10 +7,17 @@ From Alator Require Import Model.Num Model.Quirks Model.Exchange Model.Uist Mode
   Proofs.ListAux Proofs.ExchangeProofs Proofs.UistProofs Proofs.JuraProofs Proofs.ExchangeCorollaries
   Proofs.ServerProofs.
 Import ListNotations."""
+IMP1 = IMP.replace("Model.Server\n", "Model.Server Model.Tagged Model.Penelope Model.Strategy Check.ServerCheck\n").replace(
+    "Proofs.ServerProofs.", "Proofs.ServerProofs Proofs.PenelopeProofs Proofs.EndToEnd Proofs.EndToEndCor.")
 
 gen("C01", "C01 — no look-ahead: an order never fills on the tick that admits it. Statements only; the skeleton "
     "theorems hold for EVERY decision function (hence for both exchanges and all order types) and every "
-    "number type; the server theorems for every exchange. Proofs in Proofs/.", IMP, [
+    "number type; the server theorems for every exchange. The property's last sentence is ONE theorem about the "
+    "composition server + exchange (c01_end_to_end and its instances for the two services over Penelope-built "
+    "datasets): orders carry a ghost tag — the clock date their backtest showed when the client submitted them "
+    "(Model/Tagged.v) — through the very same polymorphic skeleton, erasing the tags gives back the model that is "
+    "tied to the code (c01_tagged_run_erases), and every fill's date is strictly later than its order's tag. "
+    "Proofs in Proofs/.", IMP1, [
     ("c01_fills_only_from_resting_book", "tick_fills_old",
      "Every fill of a tick belongs to an order that was resting BEFORE the tick (its id is below the id counter "
      "at tick entry), whose symbol is quoted on this tick, and is the value the decision function computes from "
@@ -36,6 +43,31 @@ gen("C01", "C01 — no look-ahead: an order never fills on the tick that admits 
      "With strictly increasing dates a later clock position shows a strictly later date: an order submitted while "
      "the clock shows position k is admitted by the tick matching row k and can fill at the earliest on the tick "
      "matching row k+1, whose quotes (carrying their row's date) are dated strictly later."),
+    ("c01_tagged_step_erases", "erase_step",
+     "Ghost tags are inert (exchange): one step of the tagged exchange, tags erased, is the step of the untagged one."),
+    ("c01_tagged_run_erases", "t_run_erases",
+     "Ghost tags are inert (server): for every history the tagged run, tags erased, is the run of the skeleton-level "
+     "server — states and responses."),
+    ("c01_uist_service_is_projection", "u_sstep_is_projection",
+     "The Uist service of the model (the one compared with http/uist.rs) is the skeleton-level server with the fill "
+     "ids and triggered ids dropped from the tick response …"),
+    ("c01_jura_service_is_projection", "jg_sstep_is_projection",
+     "… and the Jura service is it with the ids kept (jg_sstep is Check/ServerCheck.v's j_sstep, the one compared with "
+     "http/jura.rs, stated for every number type; Proofs/EndToEnd.v j_sstep_is_projection is its IEEE instance)."),
+    ("c01_end_to_end", "c01_end_to_end",
+     "END TO END, every exchange whose decision dates a fill with its quote, every history of init / new_backtest / "
+     "insert / delete / tick / fetch / info / now over any number of backtests and datasets whose dates increase "
+     "and whose rows carry their own date: if no tick is issued on a backtest after one of its ticks answered "
+     "has_next = false, every fill reported by any tick is dated STRICTLY LATER than the clock date the server "
+     "showed for that backtest when the client submitted the order (for a trigger child: its parent)."),
+    ("c01_end_to_end_single", "c01_end_to_end_single", "The same from AppState::single."),
+    ("c01_uist_end_to_end", "c01_uist_end_to_end",
+     "Instance: the Uist service over datasets loaded by Penelope::add_quote with dates that never go back (all "
+     "other premises discharged: c07_dataset_*, uist_decide dates a trade with its quote)."),
+    ("c01_jura_end_to_end", "c01_jura_end_to_end", "Instance: the Jura service, likewise."),
+    ("c01_after_end_not_strict", "c01_after_end_not_strict",
+     "The caveat is necessary: a client that ticks after has_next = false gets a fill dated exactly the submission "
+     "clock date (kernel-evaluated history; every other premise of c01_end_to_end holds for it)."),
     ("c01_refuted_q_jura_pos_stuck", "c07_refuted_q_jura_pos_stuck",
      "With the Jura clock defect (pos never stored) the clock parks on the second date: ticks keep matching the same "
      "row, so an order submitted there fills dated that same date."),
